@@ -55,6 +55,22 @@ impl Comps for Color3f {
         vec![self.r(), self.g(), self.b()]
     }
 }
+impl Comps for re::math::angle::Angle {
+    fn make(a: &[f32], z: f32) -> Self {
+        re::math::angle::rads(a[0] * z)
+    }
+    fn comps(&self) -> Vec<f32> {
+        vec![self.to_rads()]
+    }
+}
+impl Comps for re::math::color::Color4f {
+    fn make(a: &[f32], z: f32) -> Self {
+        re::math::color::rgba(a[0] * z, a[1] * z, a[2] * z, a[3] * z)
+    }
+    fn comps(&self) -> Vec<f32> {
+        vec![self.r(), self.g(), self.b(), self.a()]
+    }
+}
 impl Comps for (f32, Vec2) {
     fn make(a: &[f32], z: f32) -> Self {
         (a[0] * z, vec2(a[1] * z, a[2] * z))
@@ -121,12 +137,57 @@ fn run<V: Comps>(case: &Value) -> (bool, Vec<Value>) {
     (ok, rows)
 }
 
+/// The public scan() iterator over a trapezoid, consumed plainly and through an adaptor that skips rows
+/// (step_by / skip / nth): the rows the adaptor delivers are the corresponding rows of the plain run.
+fn exec_scan(case: &Value) -> Value {
+    use re::render::raster::scan;
+    let h = |k: &str| gi(case, k) as f32 / 2.0; // half-pixel lattice
+    let (y0, y1) = (h("y0"), h("y1"));
+    let corner = |x: f32, y: f32| -> (ScreenPt, f32) { (pt3(x, y, 1.0), 2.0 * x + 3.0 * y) };
+    let (l0, l1, r0, r1) = (corner(h("xl0"), y0), corner(h("xl1"), y1), corner(h("xr0"), y0), corner(h("xr1"), y1));
+    let rows_of = |it: &mut dyn Iterator<Item = re::render::raster::Scanline<f32>>| -> Vec<Value> {
+        it.map(|mut sl| {
+            let frags: Vec<Value> = sl.fragments().take(10_000).map(|f| json!([sc(f.pos.x(), 1024.0), sc(f.pos.y(), 1024.0), sc(f.var, 1024.0)])).collect();
+            json!([sl.y.min(1 << 30), sl.xs.start.min(1 << 30), sl.xs.end.min(1 << 30), frags])
+        })
+        .collect()
+    };
+    let kn = gi(case, "kn") as usize;
+    let how = gs(case, "how").to_string();
+    let r = guard(|| {
+        let plain = rows_of(&mut scan(y0..y1, &l0..&l1, &r0..&r1));
+        let it = scan(y0..y1, &l0..&l1, &r0..&r1);
+        let adapted = match how.as_str() {
+            "step_by" => rows_of(&mut it.step_by(kn.max(1))),
+            "skip" => rows_of(&mut it.skip(kn)),
+            _ => {
+                let mut it = it;
+                let first = it.nth(kn);
+                rows_of(&mut first.into_iter().chain(it))
+            }
+        };
+        (plain, adapted)
+    });
+    let mut e = case.clone();
+    let o = e.as_object_mut().unwrap();
+    let (p, a) = r.clone().unwrap_or((vec![], vec![]));
+    o.insert("panic".into(), json!(r.is_none() as u8));
+    o.insert("rows".into(), json!(p));
+    o.insert("rows2".into(), json!(a));
+    e
+}
+
 pub fn exec(case: &Value) -> Value {
+    if case.get("op").and_then(|v| v.as_str()) == Some("scan") {
+        return exec_scan(case);
+    }
     let (ok, rows) = match gs(case, "ty") {
         "vec2" => run::<Vec2>(case),
         "vec3" => run::<Vec3>(case),
         "col3" => run::<Color3f>(case),
         "tup" => run::<(f32, Vec2)>(case),
+        "ang" => run::<re::math::angle::Angle>(case),
+        "col4" => run::<re::math::color::Color4f>(case),
         _ => run::<f32>(case),
     };
     let mut e = case.clone();
@@ -139,7 +200,7 @@ pub fn exec(case: &Value) -> Value {
 // ---------------------------------------------------------------- generator
 
 const ZS: [i64; 6] = [20, 10, 5, 4, 2, 20];
-const TYS: [(&str, usize); 5] = [("f32", 1), ("vec2", 2), ("vec3", 3), ("col3", 3), ("tup", 3)];
+const TYS: [(&str, usize); 7] = [("f32", 1), ("vec2", 2), ("vec3", 3), ("col3", 3), ("tup", 3), ("ang", 1), ("col4", 4)];
 
 fn attrs(rng: &mut Rng, n: usize, hi: i64) -> Vec<Vec<i64>> {
     (0..3).map(|_| (0..n).map(|_| rng.range(0, hi)).collect()).collect()
@@ -149,6 +210,8 @@ fn emit(out: &mut dyn Write, key: String, s: i64, v: [[i64; 2]; 3], rng: &mut Rn
     let (ty, n) = TYS[tyi % TYS.len()];
     // reciprocal depths: equal (affine case) or a w ratio up to 10:1
     let z: Vec<i64> = if rng.chance(1, 4) { vec![20, 20, 20] } else { (0..3).map(|_| *rng.pick(&ZS)).collect() };
+    // coverage does not depend on depth: every 5th coverage-only triangle gets NEGATIVE depths
+    let z: Vec<i64> = if !small && tyi % 5 == 3 { z.iter().map(|v| -v).collect() } else { z };
     let a = attrs(rng, n, 32);
     let zsc = [0i64, 0, -14, 0, -20, 6][(tyi / TYS.len()) % 6];
     let skip = key.starts_with('S') as u8;
@@ -176,6 +239,18 @@ pub fn gen(args: &Args, out: &mut dyn Write) {
                     }
                 }
             }
+        }
+    }
+    // 1c. "scan": trapezoids for the public scan() iterator and its row-skipping adaptors
+    if mode == "scan" {
+        for i in 0..(if thorough { 20_000 } else { 2_000 }) {
+            let y0 = rng.range(-2, 10);
+            let y1 = y0 + rng.range(1, 14);
+            let (xl0, xl1) = (rng.range(-2, 12), rng.range(-2, 12));
+            let (xr0, xr1) = (xl0 + rng.range(0, 12), xl1 + rng.range(0, 12));
+            let how = ["step_by", "skip", "nth"][i % 3];
+            writeln!(out, "{}", json!({"k": format!("T{}-{}", args.seed, i), "op": "scan", "y0": y0, "y1": y1, "xl0": xl0, "xl1": xl1,
+                                         "xr0": xr0, "xr1": xr1, "how": how, "kn": rng.range(if how == "step_by" { 1 } else { 0 }, 4)})).unwrap();
         }
     }
     // 1b. "skip": the lattice triangles again (every 5th), consumed with a few columns skipped per span
